@@ -46,14 +46,17 @@ theorem afterLoop_upsert_eq (now : Int) (spec document nowV : Val) (ss dfs : Fie
     afterLoop now spec document nowV ss dfs true c3 (.ok (0, up)) =
       match (do
           let expanded ← expandDots (dset "_id" (upsertIdv ss dfs c3).1 ss)
-          let built ← applyUpdate (upsertSpec spec ss expanded) document nowV true
-            (discardOps (.doc expanded)).1
-          insertDoc now (upsertIdv ss dfs c3).2 built) with
+          applyUpdate (upsertSpec spec ss expanded) document nowV true
+            (discardOps (.doc expanded)).1) with
       | .error e => ((upsertIdv ss dfs c3).2, .error e)
-      | .ok (c5, newId) =>
-        ((match storeKey newId with
-          | .ok k => { c5 with od := c5.od ++ [k] }
-          | .error _ => c5), .ok ⟨1, 0, some newId, false⟩) := by
+      | .ok built =>
+        match insertDoc now (upsertIdv ss dfs c3).2 built with
+        | .error e => ((upsertIdv ss dfs c3).2.markStored
+            (insertStored now (upsertIdv ss dfs c3).2 built), .error e)
+        | .ok (c5, newId) =>
+          ((match storeKey newId with
+            | .ok k => { c5 with od := c5.od ++ [k] }
+            | .error _ => c5), .ok ⟨1, 0, some newId, false⟩) := by
   unfold afterLoop
   simp only [Bool.not_true, Bool.false_or, Nat.lt_irrefl, gt_iff_lt, decide_false,
     Bool.false_eq_true, if_false]
